@@ -304,6 +304,12 @@ def step_phases(ctx: Ctx, generators_must_see_driver_updates: bool = False):
                     and flow.dump(e.call.args[0]).startswith("generate_instructions(self.ordered_instruction_generators, ") and flow.dump(e.call.args[0]).endswith(f", {env})[0]")
                 ctx.check(ok_pop, "D3", "ORD.phases", "one pop per vehicle id of the generated stack (sorted ids)", fn, e.raw,
                           why_bad=f"pop call {flow.dump(e.call)[:200]}", construct="StepSimulation.update:pop")
+            elif "apply_instructions(" in d and "pop_from_stack_dict" not in d and (any(c.pol == "iter" for c in p.conds) or "reduce(" in d or "$elem(" in d):
+                # the loop over the stacks ran, instructions are applied, yet nothing was popped: what is applied is not "the top of each stack"
+                ctx.violation("D3", "ORD.phases", "one pop per vehicle id of the generated stack (sorted ids)", fn, p.end,
+                              why="the instructions handed to apply_instructions are not obtained by popping each vehicle's stack once: more than the instruction generated last "
+                                  "takes effect for a vehicle (each applied on a previous activity looked up before any of them ran)",
+                              construct="StepSimulation.update:no-pop")
         else:
             ctx.violation("D3", "ORD.phases", "StepSimulation.update returns an unrecognised value", fn, p.end, why=flow.dump(v)[:100], construct="StepSimulation.update:shape")
     rules.rule_fold_threading(ctx, "D3", fn, 1)
